@@ -37,7 +37,7 @@ pub fn show_val_raw(v: &Val) -> String {
 }
 pub fn show_fams(fams: &[Fam], canon: bool) -> String {
     if fams.is_empty() { return "-".into(); }
-    fams.iter().map(|f| format!("{}^{}^{}^{}", hex_list(&[&f.name]), hex_list(&[&f.help]), f.ty,
+    fams.iter().map(|f| format!("{}^{}^{}^{}", hex_list(&[&f.name]), hex_list(&[&f.help]), if canon && f.ty == "unset" { "counter" } else { f.ty.as_str() },
         if f.samples.is_empty() { "-".to_string() } else { f.samples.iter().map(|s| format!("{}={}@{}", pairs_str(&s.labels), if canon { show_val(&s.val, true) } else { show_val_raw(&s.val) }, s.ts)).collect::<Vec<_>>().join(";") })).collect::<Vec<_>>().join("|")
 }
 /// families with NaNs identified but nothing else canonicalised (what a lossless decoder returns)
@@ -64,7 +64,8 @@ fn parse_val(v: &str) -> Val {
 pub fn build(f: &Fam) -> MetricFamily {
     let mut mf = MetricFamily::default();
     mf.set_name(f.name.clone()); mf.set_help(f.help.clone());
-    mf.set_field_type(match f.ty.as_str() { "counter" => MetricType::COUNTER, "gauge" => MetricType::GAUGE, "summary" => MetricType::SUMMARY, "untyped" => MetricType::UNTYPED, _ => MetricType::HISTOGRAM });
+    // "unset": the type field is never written; it reads as its proto2 default, COUNTER, in both data models
+    if f.ty != "unset" { mf.set_field_type(match f.ty.as_str() { "counter" => MetricType::COUNTER, "gauge" => MetricType::GAUGE, "summary" => MetricType::SUMMARY, "untyped" => MetricType::UNTYPED, _ => MetricType::HISTOGRAM }); }
     mf.set_metric(f.samples.iter().map(|s| { let mut m = proto::Metric::default();
         m.set_label(s.labels.iter().map(|(k, v)| { let mut lp = proto::LabelPair::default(); lp.set_name(k.clone()); lp.set_value(v.clone()); lp }).collect());
         if s.ts != 0 { m.set_timestamp_ms(s.ts); }
@@ -113,7 +114,7 @@ pub fn gen_fam(rng: &mut Rng, stats: &mut Stats, idx: usize) -> Fam {
 
 fn wf(f: &Fam) -> bool {
     !f.help.starts_with(' ') && !f.help.starts_with('\t') && f.ty != "untyped" && !f.samples.is_empty() && f.samples.iter().all(|s| match (&s.val, f.ty.as_str()) {
-        (Val::C(_), "counter") | (Val::G(_), "gauge") => true,
+        (Val::C(_), "counter") | (Val::C(_), "unset") | (Val::G(_), "gauge") => true,
         (Val::H(c, _, b), "histogram") => *c < (1 << 53) && b.iter().all(|x| x.1 < (1 << 53)),
         (Val::S(c, _, _), "summary") => *c < (1 << 53), _ => false })
 }
@@ -131,7 +132,8 @@ impl Area for TextArea {
     }
     fn gen(&self, rng: &mut Rng, _thorough: bool, stats: &mut Stats) -> Vec<String> {
         let nf = rng.range(1, 3);
-        let fams: Vec<Fam> = (0..nf).map(|i| gen_fam(rng, stats, i)).collect();
+        let mut fams: Vec<Fam> = (0..nf).map(|i| gen_fam(rng, stats, i)).collect();
+        for f in fams.iter_mut() { if f.ty == "counter" && rng.chance(12) { f.ty = "unset".into(); } }
         let pre = if rng.chance(30) { "# pre\n" } else { "" };
         vec![format!("text enc pre={} fams={} fmt={}", hex_list(&[pre]), show_fams(&fams, false), fmt_table(&fams))]
     }
@@ -168,6 +170,8 @@ impl Area for TextArea {
             outs.push(format!("{} {} fmt=ok", if r.is_ok() { "ok" } else { "err" }, hex_bytes(&w)));
             let all_wf = fams.iter().all(wf);
             stats.seen(&[line.clone()], all_wf && fams.iter().any(|f| f.samples.iter().any(|s| s.labels.iter().any(|l| l.1.contains('\\') || l.1.contains('"') || l.1.contains('\n'))) || f.help.contains('\\') || f.help.contains('\n')));
+            // a well-formed family (valid names, declared or defaulted type matching its value slots, at least one sample) is always rendered
+            if r.is_err() && all_wf { fails.push(Failure { class: "wellformed-family-refused".into(), detail: format!("encode returned {:?} for well-formed families: {}", r.as_ref().err(), line) }); }
             if r.is_ok() && all_wf {
                 // round trip: the Lean reader is applied to the REAL bytes (without the pre-filled prefix)
                 stats.hit("roundtrip-checked");
